@@ -7,6 +7,7 @@ package main
 import (
 	"encoding/binary"
 	"fmt"
+	"math"
 	"sort"
 
 	ethcom "github.com/ethereum/go-ethereum/common"
@@ -241,7 +242,9 @@ func (x *g) sink(a *chain.Asm) string {
 
 func (x *g) neovmCase() kase {
 	a := chain.NewAsm()
-	switch k := x.r.Intn(20); {
+	switch k := x.r.Intn(26); {
+	case k >= 20:
+		return x.boundaryOperands()
 	case k < 2:
 		return kase{"neovm", "raw-bytes", x.r.Bytes(1 + x.r.Intn(300)), ""}
 	case k < 6:
@@ -329,6 +332,76 @@ func (x *g) neovmCase() kase {
 		}
 		return kase{"neovm", "opcode-soup", a.Bytes(), ""}
 	}
+}
+
+// boundaryOperands: every opcode that takes an index / count / length operand, with extreme integers
+// in each operand position next to plausible other operands (sums like start+count must not wrap).
+func (x *g) boundaryOperands() kase {
+	a := chain.NewAsm()
+	extremes := []func(){}
+	for _, v := range []int64{math.MaxInt64, math.MaxInt64 - 1, math.MaxInt64 - 2, math.MaxInt64 - 3, math.MinInt64, math.MinInt64 + 1,
+		1 << 32, 1<<32 - 1, 1 << 31, 1<<31 - 1, -(1 << 31), -(1 << 31) - 1, 1 << 62, -1, -2, 1024, 1025, 65536} {
+		v := v
+		extremes = append(extremes, func() { a.PushInt(v) })
+	}
+	// beyond the machine word: 2^63, 2^64-1, 2^64, 2^255, -(2^63)-1 as NeoVM little-endian integers
+	for _, b := range [][]byte{{0, 0, 0, 0, 0, 0, 0, 0x80, 0}, {0xff, 0xff, 0xff, 0xff, 0xff, 0xff, 0xff, 0xff, 0}, {0, 0, 0, 0, 0, 0, 0, 0, 1},
+		append(make([]byte, 31), 0x40), {0xff, 0xff, 0xff, 0xff, 0xff, 0xff, 0xff, 0x7f, 0xff}} {
+		b := b
+		extremes = append(extremes, func() { a.Push(b) })
+	}
+	small := func() { a.PushInt(int64(1 + x.r.Intn(3))) }
+	bytesArg := func() { a.Push(x.r.Bytes(4 + x.r.Intn(8))) }
+	arr := func() {
+		n := 1 + x.r.Intn(4)
+		for i := 0; i < n; i++ {
+			x.scalar(a)
+		}
+		a.PushInt(int64(n)).Op(neovm.PACK)
+	}
+	stackFill := func() {
+		for i := 0; i < 4; i++ {
+			x.scalar(a)
+		}
+	}
+	type opShape struct {
+		name  string
+		op    neovm.OpCode
+		pre   func()
+		nargs int
+	}
+	shapes := []opShape{
+		{"SUBSTR", neovm.SUBSTR, bytesArg, 2}, {"LEFT", neovm.LEFT, bytesArg, 1}, {"RIGHT", neovm.RIGHT, bytesArg, 1},
+		{"PICK", neovm.PICK, stackFill, 1}, {"ROLL", neovm.ROLL, stackFill, 1}, {"XDROP", neovm.XDROP, stackFill, 1},
+		{"XSWAP", neovm.XSWAP, stackFill, 1}, {"XTUCK", neovm.XTUCK, stackFill, 1},
+		{"PICKITEM", neovm.PICKITEM, arr, 1}, {"REMOVE", neovm.REMOVE, arr, 1}, {"SETITEM", neovm.SETITEM, arr, 2},
+		{"NEWARRAY", neovm.NEWARRAY, func() {}, 1}, {"NEWSTRUCT", neovm.NEWSTRUCT, func() {}, 1}, {"PACK", neovm.PACK, stackFill, 1},
+		{"SHL", neovm.SHL, func() { x.scalar(a) }, 1}, {"SHR", neovm.SHR, func() { x.scalar(a) }, 1},
+		{"WITHIN", neovm.WITHIN, func() {}, 3}, {"MOD", neovm.MOD, func() {}, 2}, {"DIV", neovm.DIV, func() {}, 2},
+		{"MUL", neovm.MUL, func() {}, 2}, {"ADD", neovm.ADD, func() {}, 2}, {"SUB", neovm.SUB, func() {}, 2},
+		{"CHECKMULTISIG", neovm.CHECKMULTISIG, stackFill, 1},
+	}
+	// the combination (shape, extreme operand position, extreme value) is drawn uniformly, so that over a
+	// run every combination is executed a few times; the other operands are small and valid
+	sh := shapes[x.r.Intn(len(shapes))]
+	pos := x.r.Intn(sh.nargs)
+	ev := x.r.Intn(len(extremes))
+	sh.pre()
+	for i := 0; i < sh.nargs; i++ {
+		switch {
+		case i == pos:
+			extremes[ev]()
+		case x.r.Chance(10):
+			extremes[x.r.Intn(len(extremes))]()
+		default:
+			small()
+		}
+	}
+	a.Op(sh.op)
+	if x.r.Chance(25) {
+		x.sink(a)
+	}
+	return kase{"neovm", "boundary-operand/" + sh.name, a.Bytes(), ""}
 }
 
 // ---- EVM case families
